@@ -23,7 +23,8 @@ UIDS_MORE = ["040000008200E00074C5B7101A82E00800000000B0C1D2E3F4A5B6C70000000000
              "long-" + "x" * 58 + "\\,tail-after-the-fold@example.com"]
 
 COND_CLASSES = [["cur"], ["stale"], ["other"], ["star"], ["unq"], ["garbage"],
-                ["other", "cur"], ["stale", "garbage"], ["garbage", "cur", "other"]]
+                ["other", "cur"], ["stale", "garbage"], ["garbage", "cur", "other"],
+                ["qstar"], ["starin"], ["stale", "starin"], ["cur", "qstar"]]
 # If-Match only (strong comparison): the current etag in weak form lists nothing the resource has
 IM_CLASSES = COND_CLASSES + [["weak"], ["stale", "weak"], ["weak", "other"]]
 
@@ -63,7 +64,7 @@ DEFAULT_PROFILE = {
 
 PROFILES = {
     "C01": {},
-    "C02": {"put": 40, "reupload": 8, "proppatch": 8, "restart": 5, "grammar": 0.4, "external": 0.08, "multiget": 12},
+    "C02": {"put": 40, "reupload": 8, "proppatch": 8, "restart": 5, "grammar": 0.4, "external": 0.08, "multiget": 12, "get": 14, "cond": 0.5},
     "C03": {"cond": 0.85, "get": 12, "put": 40, "delete": 16},
     "C06": {"put": 45, "delete": 14, "restart": 6, "post": 8, "uidheavy": True},
     "C07": {"delete": 18, "put": 34, "delcoll": 3, "mk": 5, "reupload": 6},
